@@ -78,6 +78,14 @@ func runFraming(o opts, out *Output) {
 			if itemCount(data) == 0 {
 				continue
 			}
+			if b > 0 && r.Chance(25) {
+				// a statistics scrape between two batches is part of a producer's history
+				func() {
+					defer func() { recover() }()
+					_ = pr.p.GetAndResetStats()
+				}()
+				stats["stats_scrapes"]++
+			}
 			res := pr.produce(data)
 			if res.Class != "ok" {
 				stats["producer_"+res.Class]++
